@@ -35,6 +35,29 @@ _p("C06", "CrossHair/z3 symbolic execution of each iterator with lazy stop/filte
    COMMON_ASSUME + ["stop/filter are pure per node (memoised per path)"])
 
 
+_p("C04", "CrossHair/z3 bounded exhaustive symbolic execution of all navigation attributes and util helpers against definitions over the model",
+   CH + ". Pure structure: forest shape and one optional preceding mutation are solver-picked cases; every node / pair / triple is checked inside the path.",
+   "one path = (forest shape, optional mutation); inside it every node, ordered pair and triple is evaluated; non-trivial = forest with >= 3 nodes",
+   "forests with <= 4 nodes incl. one optional parent=/children=/del before the queries; forests with 5 nodes without mutation; both mixin families",
+   "forests with <= 5 nodes with optional mutation; 6 nodes without; both families",
+   ["more nodes than the bound", "recursion limits on very deep trees", "commonancestors() of more than three nodes or none"], COMMON_ASSUME)
+
+_p("C15", "CrossHair/z3 bounded exhaustive symbolic execution of Walker.walk for every ordered pair against the LCA definition",
+   CH + ". Pure structure: forest shape and the ordered pair are solver-picked cases.",
+   "one path = (forest shape, start, end); non-trivial = path with >= 2 edges",
+   "forests with <= 5 nodes (one or more trees), every ordered pair, both families", "forests with <= 6 nodes, every ordered pair",
+   ["more nodes than the bound"], COMMON_ASSUME)
+
+_p("C14", "CrossHair/z3 symbolic execution of the search functions with lazy filter/stop/attribute-presence flags, unbounded symbolic maxlevel and attribute values",
+   CH + ". filter/stop answers and 'node has the attribute' are fresh solver Booleans asked when the real code asks (attribute presence through __getattr__); "
+   "maxlevel, the searched value and the nodes' attribute values are unbounded z3 Ints (or None); mincount/maxcount are picked relative to the expected match count k "
+   "(None, k-1, k, k+1), because the real code %d-formats them into the message which would realise a symbolic value.",
+   "one path = (shape, start, maxlevel region, predicate/presence answers, value-equality outcomes, count offsets); non-trivial = >= 2 matches (findall/find) or >= 1 match among >= 2 inspected nodes (by_attr)",
+   "trees with <= 3 nodes, every start node; 4 functions x {search, cachedsearch}; counts in {None, k-1, k, k+1}",
+   "trees with <= 4 nodes (5 for find/find_by_attr without counts), same",
+   ["mincount/maxcount further than 1 from the match count (behave like the nearest tested value for comparison-based code)", "fastcache installed (cachedsearch then needs hashable arguments); here the pass-through decorator is what runs",
+    "attribute values of other types than int/None"], COMMON_ASSUME + ["filter/stop/attribute lookups are pure per node"])
+
 MUT_OUT = ["more nodes than the bound", "hooks that themselves mutate the tree (re-entrancy)", "concurrent mutation",
            "iterables with side effects while being consumed by children="]
 
@@ -126,6 +149,24 @@ def obligations(prop, tier):
     elif prop == "C18":
         N = 3 if q else 4
         out.append(_mut("lockstep", "c18_body", {"N": N, "L": 3, "faults": "all", "F": 1}, depth=5 if q else 7, bounds="N<=%d F<=1|persistent" % N))
+    elif prop == "C04":
+        for cls in ("mixin", "light"):
+            N = 4 if q else 5
+            out.append(dict(name="nav_move_%s" % cls, module="harness.navigate", body="c04_body", cfg={"cls": cls, "N": N, "move": True}, depth=4 if q else 5,
+                            bounds="N<=%d with optional mutation" % N, picked="n, parent vector (forest), mutation", symbolic="-"))
+            out.append(dict(name="nav_%s" % cls, module="harness.navigate", body="c04_body", cfg={"cls": cls, "N": N + 1, "move": False}, depth=4 if q else 5,
+                            bounds="N<=%d" % (N + 1), picked="n, parent vector (forest)", symbolic="-"))
+    elif prop == "C15":
+        for cls in ("mixin", "light"):
+            N = 5 if q else 6
+            out.append(dict(name="walk_%s" % cls, module="harness.navigate", body="c15_body", cfg={"cls": cls, "N": N}, depth=4 if q else 5,
+                            bounds="N<=%d" % N, picked="n, parent vector (forest), start, end", symbolic="-"))
+    elif prop == "C14":
+        N = 3 if q else 4
+        for cached in (False, True):
+            for fn, body in (("findall", "findall_body"), ("find", "findall_body"), ("findall_by_attr", "by_attr_body"), ("find_by_attr", "by_attr_body")):
+                out.append(dict(name=("cached_" if cached else "") + fn, module="harness.searching", body=body, cfg={"fn": fn, "N": N, "cached": cached}, depth=6 if q else 7,
+                                bounds="N<=%d" % N, picked="n, parent vector, start, attribute name, count offsets", symbolic="maxlevel, value, node values (unbounded ints), presence/stop/filter flags"))
     return out
 
 
